@@ -1,7 +1,7 @@
 #!/bin/sh
 # every benign refactoring of round 2 against every property that extracts code from the changed file: no VIOLATION is allowed
 cd /verif
-for d in seeded/benign2/C*; do
+for d in ${1:-seeded/benign2}/*; do
   f=$(grep "^+++ b/" $d/patch.diff | head -1 | sed 's|+++ b/rust/ommx/src/||')
   case "$f" in
     evaluate.rs) ps="C01 C03 C04 C05 C10";;
@@ -10,6 +10,9 @@ for d in seeded/benign2/C*; do
     v1_ext/instance.rs) ps="C05 C08 C09 C11 C12 C13 C14 C15";;
     v1_ext/function.rs) ps="C02 C04 C13 C16";;
     sample_set.rs) ps="C15";;
+    polynomial.rs) ps="C02";;
+    quadratic.rs) ps="C02 C19";;
+    sorted_ids.rs) ps="C02 C11";;
     mps/convert.rs) ps="C17";;
     qplib/convert.rs) ps="C19";;
     *) ps=$(basename $d);;
